@@ -258,6 +258,33 @@ def main():
         try: p.wait(timeout=5)
         except Exception: p.kill()
     mrep, _, _ = vlib.run_lines(drv, ["rep %d %d %s" % (KIND[k][0], KIND[k][1], vlib.hx(OUT.get(k, OKREP))) for _, k, _, _ in rsruns])
+    # the same deliveries as event traces of the slot model (Remote/SpawnSlot.v, keep = true): each plan is one trace - command, the
+    # child's writes, (for late*: the child closes its descriptors and the spawner reads what is there), exit, handler, reads, end of file
+    def slot_events(kind):
+        out = OUT.get(kind, OKREP)
+        w = 9 if KIND[kind][0] else KIND[kind][1] * 256
+        ev = ["c"] + ["w%02x" % b for b in out]
+        rd = []
+        left = len(out)
+        while left > 0:
+            n_ = min(128, left); rd.append("r%d" % n_); left -= n_
+        if kind.startswith("late"): ev += ["x"] + rd + ["e%d" % w, "s", "r0"]
+        else: ev += ["e%d" % w, "s"] + rd + ["r0"]
+        return ev
+    seen_plans = []
+    for plan, _, _, _ in rsruns:
+        if plan not in seen_plans: seen_plans.append(plan)
+    sl, _, _ = vlib.run_lines(drv, ["slot 1 " + ",".join(e for k in plan for e in slot_events(k)) for plan in seen_plans])
+    slot_rep = {}
+    for plan, line in zip(seen_plans, sl):
+        ck.evaluated(); ck.count("slot_model_traces")
+        if line == "REJECT" or " | " not in line:
+            mism.append(dict(kind="history", component="Remote/SpawnSlot.v", plan=plan, model=line[:200])); continue
+        reps_, relayed = line.split(" | ")
+        if any(r.split(":")[2] != "1" for r in reps_.split(",")):
+            mism.append(dict(kind="history", component="Remote/SpawnSlot.v", plan=plan, model=line[:200])); continue
+        slot_rep[tuple(plan)] = relayed.split(",")
+    pos_in_plan = {}
     for (plan, kind, buf, extra), y in zip(rsruns, mrep):
         ck.evaluated(); ck.count("rspawn_process_" + kind)
         ck.nontrivial(("rsp", tuple(plan), kind))
@@ -271,6 +298,11 @@ def main():
         elif c and text[:1] != b"Z": fails.append(("rspawn:crash-not-temporary", obj, len(plan)))
         elif not c and (e == 111 and text[:1] != b"Z" or e not in (0, 111) and text[:1] != b"D"): fails.append(("rspawn:exit-code-class", obj, len(plan)))
         elif text != vlib.unhx(y): mism.append(obj)
+        else:
+            # and through the slot model: the k-th report of this plan's trace, relayed by the report() model
+            kpos = pos_in_plan.get(id(plan), 0); pos_in_plan[id(plan)] = kpos + 1
+            sr = slot_rep.get(tuple(plan))
+            if sr is not None and (kpos >= len(sr) or vlib.unhx(sr[kpos]) != text): mism.append(dict(obj, slot_model=None if kpos >= len(sr) else sr[kpos]))
     ck.cov["disagreements_checked"] = len(mism)
     ck.cov["rule"] = ("scripts: for 1..3 recipients, each protocol phase (greeting, HELO, MAIL, each RCPT, DATA, final dot) given every reply form of the classes "
                       "2xx/3xx/4xx/5xx (single- and multi-line, LF-only), garbage codes, and replies cut short / missing (disconnect), every class combination over the recipients, "
